@@ -273,6 +273,24 @@ def search_skeleton(ctx, F, ty, rule, lin):
         ctx.check(ok, rule, 'illegal-step-is-pruned', b,
                   good='a completed operation whose recorded return is illegal for the spec prunes the branch',
                   bad='%s::serialize continues a branch although is_valid_step returned false' % short)
+    # every candidate is judged on a copy of the reference object as it was handed to this search level - made
+    # for this candidate alone (a copy that an earlier, rejected candidate has already worked on is not that)
+    from taint import origins
+    for c in inv + ivs:
+        org = origins(b, c.args[0])
+        fresh = bool(org)
+        for o in org:
+            if isinstance(o, (str, tuple)) or not o.is_('Clone::clone'):
+                fresh = False
+                continue
+            src = origins(b, o.args[0])
+            if not src or not all(isinstance(x, tuple) and x[0] == 'arg' for x in src):
+                fresh = False
+        ctx.check(fresh, rule, 'fresh-reference-object@%s' % c.short.split('::')[-1], b,
+                  good='%s works on a clone of the reference object passed to this search level' % c.short.split('::')[-1],
+                  bad='%s::serialize applies %s to an object that is not a fresh clone of the reference object of this '
+                      'search level (%s): a candidate is judged against a state left behind by an earlier, rejected '
+                      'candidate' % (short, c.short.split('::')[-1], sorted(repr(o) for o in org)), span=c.span)
     # in-flight must be present: contains_key guard
     ck = [c for c in b.calls_to('BTreeMap::contains_key') if c.bb in body]
     if inv:
